@@ -157,7 +157,7 @@ class Proxy(Part):
     rule = ("streams of 1-6 lines, each 0-4 runs (text may contain [tag]-shaped text, :emoji: codes, numbers, quotes; style = SGR/OSC-8 coded by an "
             "independent encoder or plain), the last line possibly unterminated; cut into write() calls at generated offsets (inside lines, inside escape "
             "sequences, empty writes, many newlines) interleaved with flush() at generated character boundaries; through FileProxy directly and through "
-            "sys.stdout under a Live; the console output must decode to the same (char, attrs, fg, bg, link) sequence as the raw stream with one newline "
+            "sys.stdout under a Live, with write() or writelines(), optionally every other call from a second thread (sequentially); the console output must decode to the same (char, attrs, fg, bg, link) sequence as the raw stream with one newline "
             "added per non-empty flush; optionally one line of 201..20001 characters (folded by the console into full-width pieces; lengths around 1024/4096/8192/16384), also "
             "cut and flushed in the middle; non-trivial = a cut inside an escape sequence or a flush with a non-empty partial line")
     budget = {"quick": (8, 1200), "thorough": (16, 10000)}
@@ -170,9 +170,11 @@ class Proxy(Part):
         long = st.one_of(st.none(), st.none(), st.none(), st.builds(lambda i, n, sp, cut, fl: {"line": i, "len": n, "style": sp, "cut": cut, "flush": fl}, st.integers(0, 5), long_len, st.one_of(st.none(), st.sampled_from(GS.PALETTE)),
                                                                     st.one_of(st.none(), st.floats(0, 1), st.floats(0.9, 1)), st.booleans()))
         return st.builds(
-            lambda lines, last_nl, cuts, flushes, route, lg, wf: {"lines": lines, "final_newline": last_nl, "cuts": cuts, "flushes": flushes, "route": route, "long": lg, "write_fault": wf},
+            lambda lines, last_nl, cuts, flushes, route, lg, wf, how: {"lines": lines, "final_newline": last_nl, "cuts": cuts, "flushes": flushes, "route": route, "long": lg, "write_fault": wf, "how": how},
             st.lists(line, min_size=1, max_size=6), st.booleans(),
             st.lists(st.integers(0, 400), max_size=10), st.lists(st.integers(0, 400), max_size=4), st.sampled_from(["proxy", "proxy", "live", "live-stderr"]), long, st.one_of(st.none(), st.none(), st.integers(0, 6)),
+            # how the stream's methods are called: plainly; every other call from a short-lived second thread (one after the other, never at the same time); writelines() for every other chunk
+            st.sampled_from(["plain", "plain", "two-threads", "writelines", "two-threads+writelines"]),
         )
 
     def check(self, spec, ctx):
@@ -302,17 +304,53 @@ class Proxy(Part):
                 pending = ""
             sut(flush)
 
+        how = spec.get("how", "plain")
+        calls = [0]
+
+        def adapt(stream_of):
+            """stream_of() -> the stream object to use now. Returns (write, flush) callables that follow `how`."""
+            import threading
+
+            def call(fn, *a):
+                calls[0] += 1
+                if "two-threads" in how and calls[0] % 2 == 0:
+                    box = {}
+
+                    def run():
+                        try:
+                            box["r"] = fn(*a)
+                        except BaseException as e:  # noqa
+                            box["e"] = e
+
+                    th = threading.Thread(target=run)
+                    th.start()
+                    th.join()
+                    if "e" in box:
+                        raise box["e"]
+                    return box.get("r")
+                return fn(*a)
+
+            def write(text):
+                stream = stream_of()
+                if "writelines" in how and calls[0] % 3 == 1:
+                    return call(stream.writelines, [text])
+                return call(stream.write, text)
+
+            return write, (lambda: call(stream_of().flush))
+
+        if how != "plain":
+            ctx.cls("calls-" + how)
         if spec["route"] == "proxy":
             proxy = sut(FileProxy, con, sink)
-            drive(proxy.write, proxy.flush)
+            drive(*adapt(lambda: proxy))
         else:
             old_out, old_err = sys.stdout, sys.stderr
             try:
                 with Live(RenderGroup(), console=con, auto_refresh=False, redirect_stdout=True, redirect_stderr=True, transient=False):
                     if spec["route"] == "live":
-                        drive(lambda s: sys.stdout.write(s), lambda: sys.stdout.flush())
+                        drive(*adapt(lambda: sys.stdout))
                     else:
-                        drive(lambda s: sys.stderr.write(s), lambda: sys.stderr.flush())
+                        drive(*adapt(lambda: sys.stderr))
             finally:
                 sys.stdout, sys.stderr = old_out, old_err
         out = f.getvalue()
